@@ -6,11 +6,36 @@ ALL = ["C%02d" % i for i in range(1, 21)]
 
 # id -> (engine, technique, level text, level note, design ref)
 CLAIMED = {
+ "C01": ("spec/HclExpr.tla + spec/HclValues.tla (MC_E1)",
+         "TLC enumerates expression ASTs with their specified value (Eval in HclExpr.tla); each is rendered in 4 layouts, parsed and evaluated by hclsyntax, and value/error-ness compared with the specification",
+         "The TLA+ module HclExpr is the independent statement of the expression semantics (literals, operators with precedence, conditional with unification, tuple/object constructors, index/attr/legacy index, both splats, for expressions, calls with expansion, templates with interpolation/unwrapping/strip markers/if/for). TLC checks on the spec that Eval is total, yields no unknown from a known scope and depends only on FreeVars; every enumerated AST (depth 2, typed sibling pools) is evaluated by the real parser+evaluator and compared.",
+         "Bounded universe (half-integer numbers, representative strings, 17-variable scope); results outside it are 'oom' and only executed for panic-freedom; value-layer behaviour follows go-cty where spec.md is silent; heredoc templates not yet generated.",
+         "DESIGN.md §4.0, §4 C01"),
+ "C05": ("spec/HclExpr.tla (MC_E1 generator)",
+         "TLC-enumerated ASTs; for each, abstract (unknown/dynamic/refined) vs concrete evaluations of the real evaluator compared with the soundness relation (cty Range().Includes, type conformance, known parts equal)",
+         "Every MC_E1 AST x every non-empty subset of its free variables x 3-5 abstraction kinds x same-typed concrete instantiations; verdict is the property's approximation relation computed on real outputs only; the model-level invariant KnownInKnownOut is checked by TLC on the specified semantics.",
+         "Concrete instantiations are a finite table of alternates per variable; refinement tightness is not checked; error pairs are outside the statement.",
+         "DESIGN.md §4 C05"),
+ "C06": ("spec/HclExpr.tla (MC_E1 generator)",
+         "TLC-enumerated ASTs; non-interference relation over pairs of marked contents evaluated by the real evaluator",
+         "Every MC_E1 AST x each free variable x (top-level mark, 3 alternate contents | mark nested on first element): if the two error-free results differ, both must carry the mark. Violations are localised to the smallest laundering sub-expression (also inside for bodies).",
+         "Expressions only so far (hcldec/dynblock bodies are planned in E2); alternates table finite.",
+         "DESIGN.md §4 C06"),
+ "C07": ("spec/HclExpr.tla (MC_E1 generator, FreeVars)",
+         "TLC-enumerated ASTs with the specification's FreeVars; Variables() of the real code checked for sufficiency by re-evaluating in pruned and perturbed scopes (native, JSON string templates, JSON object-key templates)",
+         "TLC checks DependsOnlyOnFreeVars on the specified semantics; for every AST the reported roots R must make evaluation in scope|R, and in scopes with every unreported variable changed or nulled, identical in value and diagnostics; iterator names must not be reported.",
+         "hcldec.Variables and the dynblock walkers are not yet covered (planned with E2).",
+         "DESIGN.md §4 C07"),
  "C12": ("spec/HclWriteTree.tla",
          "TLC exhaustive enumeration of writer-API edit histories (HclWriteTree.tla), each history replayed into hclwrite and compared with the model's predicted file",
          "Every history of <= 3 (quick) / <= 4 (thorough) writer calls from an empty and a parsed-with-comments file is enumerated by TLC; the model's invariants (unique attribute names, forest, untouched items keep tokens) are checked on the spec, and every enumerated history is executed against hclwrite: no panic, serialised bytes parse, re-parsed structure equals the model, read accessors (through the root and through retained handles) equal the model, untouched original items keep their comment/token lines.",
          "Bounded: names {a,b}, types {t,u}, 3 label lists, 4 expression payloads, nesting <= 2; AppendBlock only with detached blocks; token preservation is checked line-wise modulo indentation.",
          "DESIGN.md §4 C12"),
+ "C19": ("spec/HclExpr.tla (MC_E1 generator)",
+         "TLC-enumerated (error-rich) ASTs evaluated by the real evaluator in canary scopes; diagnostics and their text renderings searched for canaries",
+         "Every MC_E1 AST evaluated with secrets (high-entropy strings/numbers/map keys) only inside marked values, marks at top level and nested; no summary, detail or text-writer rendering may contain a canary.",
+         "Expressions only so far; error kinds reached are those of the depth-2 generator.",
+         "DESIGN.md §4 C19"),
 }
 NOT_YET = "check not built yet in this round (planned per DESIGN.md §4); nothing is claimed for it"
 
@@ -47,6 +72,7 @@ def main():
         },
         "engines": [
             {"name": "HclWriteTree", "path": "spec/HclWriteTree.tla", "serves_properties": ["C12"], "kind_free_text": "TLA+ edit-history machine of the hclwrite tree; TLC state dump streamed to a Go replayer"},
+            {"name": "E1 HclValues+HclExpr+MC_E1", "path": "spec/HclExpr.tla", "serves_properties": ["C01", "C05", "C06", "C07", "C19"], "kind_free_text": "TLA+ denotational semantics of the expression/template language with a production-per-action AST generator; TLC dump streamed to Go replayers (harness/e1, c01, c05, c06, c07, c19)"},
         ],
         "checks": checks,
         "not_applicable": na,
